@@ -193,6 +193,7 @@ fn run_in_thread(family: Family, mode: Mode) -> RunOut {
     };
     w.p_immediate.set(plan.p_immediate);
     w.p_hold.set(plan.p_hold);
+    w.p_hold_ctl.set(plan.p_hold_ctl);
     w.w_outcome.set(plan.w_outcome);
     w.w_payload.set(plan.w_payload);
     *w.immediate_mask.borrow_mut() = plan.immediate_mask.clone();
